@@ -67,6 +67,28 @@ def decisions(sorter):
     return [['last'] if v <= eps else ['pair', r, c] for r, c, v in PROXY.log]
 
 
+class Recorder(H.SimilarityMeasure):
+    """wraps the sorter's similarity measure: the values it returns, call by call"""
+    def __init__(self, inner):
+        self.inner = inner
+        self.vals = []
+
+    def compute_similarity(self, left, right):
+        r = self.inner.compute_similarity(left, right)
+        self.vals.append(float(r[0]))
+        return r
+
+
+def ranks(vals, eps):
+    """an order-isomorphic integer image of the floats seen in one call, with 0.0 and epsilon"""
+    import math
+    if any(math.isnan(v) for v in vals):
+        return None
+    order = sorted(set(vals) | {0.0, float(eps)})
+    idx = {v: i for i, v in enumerate(order)}
+    return {'zero': idx[0.0], 'eps': idx[float(eps)], 'vals': [idx[v] for v in vals]}
+
+
 def make_sorter(case, g):
     if case['kind'] == 'edge':
         return HierarchicalEdgeTermIdSorting(g)
@@ -85,6 +107,8 @@ def observe_argsort(case):
     out = {}
     PROXY.log = []
     sorter = make_sorter(case, g)
+    rec = Recorder(sorter._sim_measure)
+    sorter._sim_measure = rec
     inp = list(tids)
     try:
         r1 = sorter.argsort(inp)
@@ -93,6 +117,7 @@ def observe_argsort(case):
     except Exception as e:
         out['err'] = exn_name(e)
     out['decisions'] = decisions(sorter)
+    out['sims'] = ranks(rec.vals, sorter._epsilon)
     out['input_untouched'] = len(inp) == len(tids) and all(a is b for a, b in zip(inp, tids))
     # further calls on the SAME sorter instance: same id set with other multiplicities, other sequences
     out['followups'] = []
@@ -109,11 +134,14 @@ def observe_argsort(case):
             arg = buf
         else:
             arg = new
+        recorder = sorter._sim_measure
+        recorder.vals = []
         try:
             rec['ok'] = [int(i) for i in sorter.argsort(arg)]
         except Exception as e:
             rec['err'] = exn_name(e)
         rec['decisions'] = decisions(sorter)
+        rec['sims'] = ranks(recorder.vals, sorter._epsilon)
         out['followups'].append(rec)
     if 'ok' in out:
         # same answer for identified objects with those ids, for a tuple input, and when called again
